@@ -2813,7 +2813,7 @@ def generate_signatures(repo):
 #    e ::= int | name | self.a | self.m(..) | super().m(..) | e.m(..) for a translated class | d.get(k, e) | e[i] | e + e | e - e
 #        | len(e) | sum(g) | frozenset(g) | bool(e) | any(bounds) | round(e, k) | isinstance(e, T) | not e | e and e | e or e (short circuit kept when an operand may raise)
 #        | e (<|<=|>|>=|==|!=) e | e is [not] None | e [not] in l | e.candidacy_for (boolean context)
-#    g ::= e for x in e          isinstance(e, T): T a class of candidate.py, str, frozenset, tuple, list, collections.abc.Set|Sequence, or a
+#    g ::= e for x in e | e for a, b in e          isinstance(e, T): T a class of candidate.py, str, frozenset, tuple, list, collections.abc.Set|Sequence, or a
 #    tuple of these -> a test of the constructor of the object, the candidate kinds (str, Person, PoliticalParty, Coalition, blank
 #    options) placed by the class hierarchy READ FROM candidate.py.
 VAL_HEADER = """(* GENERATED by tools/py2v.py (part 6) from votelib/vote.py, votelib/candidate.py, votelib/convert.py -- do not edit. *)
@@ -3213,19 +3213,29 @@ class VX:
         die(it, 'iteration over %s' % (t,))
 
     def genexp(self, g, env):
-        if len(g.generators) != 1 or g.generators[0].ifs or g.generators[0].is_async or not isinstance(g.generators[0].target, ast.Name):
+        if len(g.generators) != 1 or g.generators[0].ifs or g.generators[0].is_async:
             die(g, 'generator expression')
+        tg = g.generators[0].target
         items, ity = self.iter_items(g.generators[0].iter, env)
         if ity != 'obj':
             die(g, 'generator over pairs')
-        x = g.generators[0].target.id
         env2 = dict(env)
-        env2[x] = (x, 'obj')
+        if isinstance(tg, ast.Name):
+            x, bind = tg.id, '%s'
+            env2[x] = (x, 'obj')
+        elif isinstance(tg, ast.Tuple) and len(tg.elts) == 2 and all(isinstance(e, ast.Name) for e in tg.elts):
+            x, pr, e = self.fresh('it'), self.fresh('pr'), self.fresh('e')
+            a, b = (e_.id for e_ in tg.elts)
+            bind = '(match py_unpack2 %s with inl %s => let %s := fst %s in let %s := snd %s in %%s | inr %s => inr %s end)' % (
+                x, pr, a, pr, b, pr, e, e)
+            env2[a], env2[b] = (a, 'obj'), (b, 'obj')
+        else:
+            die(g, 'generator target')
         (t, ty), hs = self.scoped(lambda: self.ex(g.elt, env2))
         if ty != 'obj':
             die(g, 'generator of %s' % (ty,))
-        if hs:
-            return self.hoist('(py_mapM (fun %s => %s) %s)' % (x, self.wrap(hs, 'inl %s' % t), items), 'l')
+        if hs or bind != '%s':
+            return self.hoist('(py_mapM (fun %s => %s) %s)' % (x, bind % self.wrap(hs, 'inl %s' % t), items), 'l')
         return '(map (fun %s => %s) %s)' % (x, t, items)
 
     # ---- statements.  k(env) is the term of what follows the block (called exactly once per fall-through path)
